@@ -132,3 +132,43 @@ Example C02_example :
      [114; 46; 48; 46; 112]; [114; 46; 48; 46; 113]; [114; 46; 49; 46; 112]; [116]; [116; 46; 105; 110; 99]]%N /\
   map r_col (doc_table (ex_doc 1 true) docs) = [[1; 7]; [2; 8]; [1; 0]; [1; 7]; [1000; 7000]; [-1; -7]; [0; 0]; [6; 12]].
 Proof. exact c02_example. Qed.
+
+(* ---- oracle = theorem: the executable oracle c02_check / c02_ok of Model/ViewsOk.v,
+   which the driver ocaml/c02_run.ml evaluates on the implementation's observations and
+   the accepted inputs, accepts the model's own observation model_sobs (what the driver
+   computes from the model reader's chunks) of the model's own emission: under the
+   hypotheses of C02_table, with the hypotheses of C02_keys_unique on the inputs (needed
+   by the oracle's pairwise-distinct-keys clause only), every part of the verdict is true
+   - no error, inputs consumed exactly by the chunks' sample counts, keys, values, types,
+   and the six views CF RF CS RS RM RE (proofs in Proofs/OracleSoundC02.v) ---- *)
+From FV.Proofs Require OracleSoundC02.
+
+Theorem C02_oracle_sound : forall (deflate : bytes -> bytes) (inflate : bytes -> option bytes),
+  (forall p, inflate (deflate p) = Some p) ->
+  forall k n docs nows,
+  compressing k = true -> 1 <= n < 2 ^ 31 -> inputs_ok docs nows -> fits k n docs ->
+  Forall (fun d => doc_has_ts_seconds d = false) docs ->
+  Forall (fun d => doc_keys_good d = true /\ doc_arrays_small d = true) docs ->
+  exists cs o,
+    read_chunks inflate None (emitted (snd (fst (emit deflate k n docs nows)))) = (cs, None) /\
+    model_sobs cs false = Some o /\ c02_ok docs o = true.
+Proof. exact OracleSoundC02.c02_oracle_sound. Qed.
+Print Assumptions C02_oracle_sound.
+
+(* the same in the executable instance the driver runs: trivial codec (deflate_flag /
+   inflate_flag of Model/Instance.v, a zlib in the sense of the section: C01_flag_codec in
+   Props/C01.v) and the model reader with its evaluation cap, x_read.  The cap does not
+   bite when metric count * number of samples <= delta_cap = 200000 *)
+From FV.Model Require Import Instance.
+From FV.Proofs Require OracleSoundC02x.
+
+Theorem C02_oracle_sound_x : forall k n docs nows,
+  compressing k = true -> 1 <= n < 2 ^ 31 -> inputs_ok docs nows -> fits k n docs ->
+  Forall (fun d => doc_has_ts_seconds d = false) docs ->
+  Forall (fun d => doc_keys_good d = true /\ doc_arrays_small d = true) docs ->
+  (N.of_nat (length (flatten_doc (hd [] docs))) * N.of_nat (length docs) <= delta_cap)%N ->
+  exists cs o,
+    x_read (emitted (snd (fst (emit deflate_flag k n docs nows)))) = (cs, None) /\
+    model_sobs cs false = Some o /\ c02_ok docs o = true.
+Proof. exact OracleSoundC02x.c02_oracle_sound_x. Qed.
+Print Assumptions C02_oracle_sound_x.
